@@ -133,6 +133,10 @@ type keyBuilder struct {
 	build func(w kmipclient.ExecRegisterWantType) kmipclient.ExecRegister
 }
 
+// custom: the caller builds the object (Register().Object): the format is the caller's, not a selector's.
+func (b keyBuilder) custom() bool { return strings.HasPrefix(b.name, "Object:") }
+
+
 const keyUsage = kmip.CryptographicUsageSign | kmip.CryptographicUsageVerify
 
 func keyPemBlock(ty string, der []byte) []byte {
@@ -165,6 +169,18 @@ func keyRSABuilders(k *rsa.PrivateKey) []keyBuilder {
 		{"PemPublicKey:PUBLIC_KEY", "rsapub", func(w W) X { return w.PemPublicKey(keyPemBlock("PUBLIC KEY", pkix), keyUsage) }},
 		{"PemPublicKey:RSA_PRIVATE_KEY", "rsapub", func(w W) X { return w.PemPublicKey(keyPemBlock("RSA PRIVATE KEY", pkcs1), keyUsage) }},
 		{"PemPublicKey:PRIVATE_KEY", "rsapub", func(w W) X { return w.PemPublicKey(keyPemBlock("PRIVATE KEY", pkcs8), keyUsage) }},
+	}
+}
+
+// keyRSABuildersTyped: the builders that take the Go key itself.
+func keyRSABuildersTyped(k *rsa.PrivateKey) []keyBuilder {
+	type W = kmipclient.ExecRegisterWantType
+	type X = kmipclient.ExecRegister
+	return []keyBuilder{
+		{"RsaPrivateKey", "rsapriv", func(w W) X { return w.RsaPrivateKey(k, keyUsage) }},
+		{"PrivateKey", "rsapriv", func(w W) X { return w.PrivateKey(k, keyUsage) }},
+		{"RsaPublicKey", "rsapub", func(w W) X { return w.RsaPublicKey(&k.PublicKey, keyUsage) }},
+		{"PublicKey", "rsapub", func(w W) X { return w.PublicKey(&k.PublicKey, keyUsage) }},
 	}
 }
 
@@ -278,6 +294,8 @@ type keyRtOrig struct {
 	cert   *x509.Certificate
 	multi  bool
 	ecCode uint32
+	// lenient: the standard library does not accept this key (see keyRSASample.lenient)
+	lenient bool
 }
 
 func keyViolate(ctx *Ctx, oracle, key, detail, line string) {
@@ -319,6 +337,19 @@ func keyRtCase(env *keyEnv, path string, enc keyEnc, ver kmip.ProtocolVersion, b
 	defer func() { ctx.Add(line, outcome, true, "C14") }()
 	regFmt := uint32(0)
 	fail := func(oracle, what, detail string) {
+		if orig.lenient {
+			// a key the standard library rejects: a refusal (an error from the builder, or from an accessor that goes
+			// through the standard library) is an answer; a panic or another key is not
+			stdlibFree := (regFmt == 10 || regFmt == 11) && !strings.Contains(what, ":Pem")
+			if oracle == "register-accepts" || (oracle == "extract" && strings.HasSuffix(what, ":error") && !stdlibFree) ||
+				strings.HasSuffix(what, ":PrivateKey.RSA.Precomputed:differs") {
+				if outcome == "ok" {
+					outcome = "refused"
+				}
+				ctx.Res.Count("rt.lenient.refused")
+				return
+			}
+		}
 		outcome = "violation"
 		if orig.multi && regFmt == 10 {
 			// everything that goes wrong with a multi-prime key in the two-prime transparent format is one finding
@@ -364,7 +395,7 @@ func keyRtCase(env *keyEnv, path string, enc keyEnc, ver kmip.ProtocolVersion, b
 		return
 	}
 	// the format the builder chose (independent expectation; the Lean model is asked through key.reg)
-	if kb := keyKbOf(req.Object); kb != nil {
+	if kb := keyKbOf(req.Object); kb != nil && !b.custom() {
 		adm := keyAdmissibleFormats(b.kind, kf, ver)
 		if !keyFormatIn(uint32(kb.KeyFormatType), adm) {
 			fail("format-selector", "format-"+keyFmtName(uint32(kb.KeyFormatType))+"-not-requested",
